@@ -27,7 +27,9 @@ Record sobs := mkSO {
 
 Record step := mkStep { st_kind : skind; st_acts : list act; st_co : obs; st_so : sobs }.
 
-Inductive mode := ME2E | MClient | MServer.
+(* MFree: end to end, the client half NOT compared with Model/Client.v (a cancellation landing inside NewStream's
+   transport Write is not a state of the model: its open is atomic between quiescent points); predicates only *)
+Inductive mode := ME2E | MClient | MServer | MFree.
 
 Inductive cwcase :=
 | CwRun (m : mode) (steps : list step) (c2s s2c : list penv) (ids : list Z)
@@ -54,9 +56,9 @@ Fixpoint agree_steps (i : nat) (cands : list state) (steps : list step) : option
 
 Definition cw_agrees (c : cwcase) : option nat :=
   match c with
-  | CwRun MServer _ _ _ _ => None
+  | CwRun MServer _ _ _ _ | CwRun MFree _ _ _ _ => None
   | CwRun _ steps _ _ _ => agree_steps 0 [init] steps
-  | CwWedged MServer _ _ _ _ => None
+  | CwWedged MServer _ _ _ _ | CwWedged MFree _ _ _ _ => None
   | CwWedged _ steps _ _ _ => agree_steps 0 [init] steps
   end.
 
@@ -95,6 +97,9 @@ Fixpoint split_cancel (c : nat) (before : list step) (l : list step) : option (l
 
 Definition events_of (l : list step) : list cev := flat_map (fun st => o_events (st_co st)) l.
 Definition acts_of (l : list step) : list act := flat_map st_acts l.
+
+Definition ncalls_of (l : list act) : nat :=
+  length (filter (fun a => match a with ANewUnary _ _ | ANewStream _ => true | _ => false end) l).
 
 Definition opened (c : nat) (evs : list cev) : bool :=
   existsb (fun e => match e with EvOpenRet d None => Nat.eqb c d | _ => false end) evs.
@@ -221,6 +226,33 @@ Definition c07_call (c : nat) (steps : list step) (c2s : list penv) (ids : list 
         (if r5a && r5b then [] else [5%nat])
   end.
 
+(* a cancellation that lands WHILE the stream is being opened (the step that starts call c also cancels it: the
+   caller's context ends inside NewStream's transport Write, right after the transport accepted the opener, or while
+   that Write is held up). Either the opener never reaches the wire, or exactly one reset follows it and the handler's
+   context is done once everything is delivered; NewStream returns nil or the context's error; no operation hangs. *)
+Definition c07_open_cancel (c : nat) (steps : list step) (c2s : list penv) (ids : list Z) : list nat :=
+  match split_cancel c [] steps with
+  | None => []
+  | Some (before, st, after, dl) =>
+      if negb (Nat.eqb (ncalls_of (acts_of before)) c) || hard_faulty steps || faulty steps then []
+      else
+        let i := id_of ids (Z.of_nat c) in
+        let on_wire := existsb (fun e => p_id e =? i) c2s in
+        let lst := last (st :: after) st in
+        let ok_ev (e : cev) := match e with
+                               | EvOpenRet d (Some x) => if Nat.eqb c d then ctx_class dl x else true
+                               | EvRecvRet d r => if Nat.eqb c d then match r with RMsg _ => false | RErr x => ctx_status_class dl x end else true
+                               | EvSendRet d r => if Nat.eqb c d then match r with None => false | Some x => ctx_class dl x end else true
+                               | _ => true
+                               end in
+        let r2 := forallb ok_ev (events_of (st :: after)) in
+        let r3 := forallb (fun s => negb (pending_on c (st_co s))) after
+                  && negb (existsb (fun p => (fst p =? Z.of_nat c) && (snd p =? 0)) (o_pending (st_co lst))) in
+        let r4 := if on_wire then count_rst i c2s =? 1 else true in
+        let r5 := if so_dc (st_so lst) =? so_wc (st_so lst) then negb (hctx_live (Z.of_nat c) (st_so lst)) else true in
+        (if r2 then [] else [2%nat]) ++ (if r3 then [] else [3%nat]) ++ (if r4 then [] else [4%nat]) ++ (if r5 then [] else [5%nat])
+  end.
+
 (* every reset the client wrote belongs to a call that had been cancelled (or whose first response was
    undecodable) by the step in which it was written *)
 Fixpoint resets_owned (prev : Z) (done : list step) (todo : list step) (c2s : list penv) (ids : list Z) : bool :=
@@ -249,7 +281,7 @@ Definition spec_c07 (c : cwcase) : list nat :=
   match c with
   | CwRun MServer _ _ _ _ => []
   | CwRun _ steps c2s s2c ids =>
-      dedupn (flat_map (fun c => c07_call c steps c2s ids) (seq 0 (ncalls steps))
+      dedupn (flat_map (fun c => c07_call c steps c2s ids ++ c07_open_cancel c steps c2s ids) (seq 0 (ncalls steps))
               ++ (if faulty steps || resets_owned 0 [] steps c2s ids then [] else [4%nat]))
   | CwWedged _ _ _ _ _ => [6%nat]
   end.
